@@ -14,6 +14,7 @@ ENGINES = {
     'valid': ('harness.valid_checks', ['C19']),
     'round': ('harness.round_checks', ['C12']),
     'dict': ('harness.dict_checks', ['C03']),
+    'persist': ('harness.persist_checks', ['C04']),
 }
 
 
